@@ -191,24 +191,48 @@ Print Assumptions C17_selector.
 
 (** ** Join
 
-    Event histories: outer-map changes (linking / unlinking inner nodes), inner writes,
-    unobserve / observe of the join node, passes.  The engine's notification discipline is
-    part of the model (Mapi.v, Join).  [fixed = false] is the code as it is.
+    Event histories: outer-map changes (linking / unlinking inner nodes), writes to inner
+    vars, writes to the base vars of COMPUTED inner nodes (Map / Map2 nodes over two shared
+    vars, observed elsewhere or lazy), unobserve / observe of the join node, passes.  The
+    engine's notification discipline is part of the model (Mapi.v, Join): a computed node
+    that is stale recomputes in the next pass in which it is necessary, before the join if
+    the join already depends on it, otherwise before or after the join's first run as the
+    engine happens to schedule it -- the [early] list of each [Pass] event, universally
+    quantified here and recorded from the real engine by the harness.  In particular the
+    theorem covers the pass in which the join links a node whose input changes in the same
+    pass and which recomputes only after the join has read it: the join is marked stale by
+    [link], runs a second time and reads the new value (MapiProofs.join_second_run_needed
+    shows the intermediate stale state on the model).
+    [fixed = true] is join.go with the relink repair (what /repo holds now; the harness
+    probes it), [fixed = false] the code before it.
 
     The positive statement needs two hypotheses on the history, and the code violates the
     unrestricted statement in three ways (the refutations below):
-    (a) every inner node keeps to one key throughout ([consistent keyOf] for some [keyOf]);
-    (b) the join node is never unobserved -- or the repaired variant is used
-        ([fixed = true]: the first recompute after a relink re-reads every linked key). *)
-Theorem C17_join : forall (fixed : bool) (keyOf : Z -> Z) (vals0 : zmap) (evs : list Join.ev),
-  (forall m, Join.SetOuter m ∈ evs -> consistent keyOf m) ->
+    (a) every inner node keeps to one key throughout ([consistent keyOf] for some [keyOf]),
+        and only vars are written directly ([event_ok]);
+    (b) the join node is never unobserved -- or the repaired variant is used. *)
+Theorem C17_join : forall (fixed : bool) (keyOf : Z -> Z) (cdefs0 : list (Z * Join.cdef))
+    (vals0 bvals0 : zmap) (evs : list Join.ev) (early : list Z),
+  (forall e, e ∈ evs -> event_ok keyOf cdefs0 e) ->
   (fixed = true \/ Join.Unobserve ∉ evs) ->
-  let j := fold_left (Join.step fixed) (evs ++ [Join.Pass]) (Join.init vals0) in
+  let j := fold_left (Join.step fixed) (evs ++ [Join.Pass early]) (Join.init vals0 bvals0 cdefs0) in
   Join.ingraph j = true -> Join.value j = F_join (Join.vals j) (Join.outer j).
 Proof. exact join_correct. Qed.
 Print Assumptions C17_join.
 
-(** FULL statement (false): [forall vals0 evs, join_holds false vals0 evs]. *)
+(** [event_ok] spelled out *)
+Theorem C17_join_event_ok : forall (keyOf : Z -> Z) (cdefs0 : list (Z * Join.cdef)) (e : Join.ev),
+  event_ok keyOf cdefs0 e <->
+  match e with
+  | Join.SetOuter m => forall k x, m !! k = Some x -> keyOf x = k
+  | Join.SetInner x _ => x ∉ map fst cdefs0
+  | _ => True
+  end.
+Proof. exact event_ok_spelled_out. Qed.
+Print Assumptions C17_join_event_ok.
+
+(** FULL statement (false): [forall fixed vals0 evs, join_holds fixed vals0 evs]  (no hypotheses;
+    [join_holds] is the conclusion of C17_join for a history over vars ending in a pass). *)
 
 (** unobserve the join, write an inner var, observe again: the old value stays *)
 Theorem C17_join_refuted : exists (vals0 : zmap) (evs : list Join.ev) (keyOf : Z -> Z),
